@@ -139,6 +139,8 @@ type State struct {
 	events  []string
 	collect *[]candCheck // houdini: collected candidate checks at back edges
 	steps   int
+	doneChan  map[string]string // channel term -> context term (results of ctx.Done())
+	ctxDone   map[string]bool   // contexts whose Done channel was received from on this path
 	gvars     map[string]Val // mutable ghost variables of the unit
 	onceDepth int
 	hashEmpty map[string]bool // hashers known to be in their initial (empty) state on this path
@@ -694,6 +696,18 @@ func (st *State) clone() *State {
 		n.hashEmpty = make(map[string]bool, len(st.hashEmpty))
 		for k, v := range st.hashEmpty {
 			n.hashEmpty[k] = v
+		}
+	}
+	if st.doneChan != nil {
+		n.doneChan = make(map[string]string, len(st.doneChan))
+		for k, v := range st.doneChan {
+			n.doneChan[k] = v
+		}
+	}
+	if st.ctxDone != nil {
+		n.ctxDone = make(map[string]bool, len(st.ctxDone))
+		for k, v := range st.ctxDone {
+			n.ctxDone[k] = v
 		}
 	}
 	if st.gvars != nil {
